@@ -390,9 +390,11 @@ func c20Occurrence(c *core.Ctx, r *core.Reporter) {
 		r.Unknown("Plan.collectInto/Field/occurrence-recorded", token.NoPos, "not found")
 		return
 	}
-	// the planDirectives call of the Field arm: its argument is the Directives field of an *ast.Field
+	// the planDirectives call of the Field arm: its argument is the Directives field of an *ast.Field. The arm may have
+	// been extracted into a helper of collectInto: the analysis then runs inside the helper, where going back to the
+	// selection loop is a return.
 	var start *ssa.BasicBlock
-	for _, site := range core.CallsTo(fn, pd, false) {
+	for _, site := range c.RegionCallsTo(fn, pd) {
 		args := site.Common().Args
 		if len(args) == 0 || !core.HasClass(args[0], "field:Field.Directives") {
 			continue
@@ -417,6 +419,7 @@ func c20Occurrence(c *core.Ctx, r *core.Reporter) {
 		r.Unknown("Plan.collectInto/Field/occurrence-recorded", fn.Pos(), "could not find the alwaysSkip test of the Field arm")
 		return
 	}
+	fn = start.Parent()
 	rec := map[*ssa.BasicBlock]bool{}
 	core.Instrs(fn, func(in ssa.Instruction) {
 		if st, ok := in.(*ssa.Store); ok {
